@@ -3,7 +3,7 @@ from expr import fmt, walk
 from harness import Skip
 from guards import phi_defs, block_conditions, SWAP
 import poly as polymod
-from rules.common import adapters_in, calls_named, req, strip, S
+from rules.common import adapters_in, calls_named, req, strip, S, find_rel_edges
 
 INFO = {
     "explanation": "Static transcription rules over MIR: each private sampler layer is compared, as a reconstructed term/CFG shape, with "
@@ -54,8 +54,8 @@ def run_uniform(ctx):
         K = "%s:%s:" % (rule, f.id)
         draw = Call("random_biguint", Local(1), Call("bits", Local(2)))
         rds = [rd for rd in g.retdefs if rd.expr is not None]
-        acc = [e for e in g.edges if e.cond[0] == "rel" and e.cond[1] == "Lt" and draw(e.cond[2]) and Local(2)(e.cond[3])]
-        rej = [e for e in g.edges if e.cond[0] == "rel" and e.cond[1] == "Ge" and draw(e.cond[2]) and Local(2)(e.cond[3])]
+        acc = find_rel_edges(g, "Lt", draw, Local(2))
+        rej = find_rel_edges(g, "Ge", draw, Local(2))
         good = len(rds) == 1 and draw(rds[0].expr) and len(acc) == 1 and len(rej) == 1 and g.loop_of(acc[0].block) is not None
         if good:
             lp = g.loop_of(acc[0].block)
